@@ -11,7 +11,7 @@ RULE = ("hyp: sequences of all composition classes up to 60 (quick) / 150 (thoro
         "the 190 unordered residue pairs as two singleton groups on seed-chosen sequences. Oracle: Omega == kappa of the two-letter "
         "recoding == kappa_X(PEDKR) == reference kappa of the recoded pattern; kappa == kappa_X(ED, KR); swap/order/case/container "
         "invariance; one group == its complement; invalid group raises; Omega_sequence is X at P/E/D/K/R and O elsewhere. "
-        "history cases ask 2-5 related groupings (all splits of subsets of a pool of <=5 residues, interleaved with kappa/Omega) of the SAME object and compare each answer with a fresh object. Non-trivial: both recoded classes present and kappa != -1; distinct by (sequence, groups).")
+        "omega cases may present the sequence as pasted text (blocks of ten, wrapped, padded, lower case); long-neighbours: compositions of one length 101..160 differing by one residue analysed in one process (kappa == kappa_X(ED,KR) == kappa_X(KR,ED) == reference); history cases ask 2-5 related groupings (all splits of subsets of a pool of <=5 residues, interleaved with kappa/Omega) of the SAME object and compare each answer with a fresh object. Non-trivial: both recoded classes present and kappa != -1; distinct by (sequence, groups).")
 ASSUMPTIONS = ["overlapping groups are outside the domain (which group wins is undocumented; the swap law is false for them by construction)",
                "reference kappa of a recoded pattern is ref.kappa_from(exact delta, documented-family maximum); KF-1 (kappa>1.1) applies to "
                "recoded sequences as well and does not affect these equalities",
@@ -75,9 +75,12 @@ def check_omega(ctx, case):
     got = util.sp(seq).get_Omega_sequence()
     ctx.check(got == want, "omega-sequence", "get_Omega_sequence()=%r, expected %r" % (got, want), case)
     # kappa == kappa_X(ED, KR)
-    k = util.sp(seq).get_kappa()
+    raw = case.get("raw", seq)
+    k = util.sp(raw).get_kappa()
     _r, kedge = ref_kappa(ref.pattern(seq))
-    eq_kappa(ctx, case, k, util.sp(seq).get_kappa_X(["E", "D"], ["K", "R"]), "kappa=kappaX(ED,KR)", "get_kappa() vs get_kappa_X(ED,KR)", kedge)
+    eq_kappa(ctx, case, k, util.sp(raw).get_kappa_X(["E", "D"], ["K", "R"]), "kappa=kappaX(ED,KR)", "get_kappa() vs get_kappa_X(ED,KR) for input %r" % raw, kedge)
+    if "raw" in case:
+        eq_kappa(ctx, case, util.sp(raw).get_Omega(), om, "omega-raw", "get_Omega() of the pasted form %r vs of the clean word" % raw, edge)
 
 
 def check_groups(ctx, case):
@@ -135,7 +138,23 @@ def check_history(ctx, case):
                   "call %d %s on an object that already answered %r returned %r; a fresh object returns %r" % (i, what, case["calls"][:i], got, want), case)
 
 
+def check_neighbours(ctx, case):
+    """Neighbouring compositions of one long length analysed in one process: kappa == kappa_X(ED,KR) == kappa_X(KR,ED) == reference."""
+    ctx.count(case, nontrivial=True, classes=["long-neighbours:%d" % len(case["seqs"])])
+    for s in case["seqs"]:
+        refs, edge = ref_kappa(ref.pattern(s))
+        k = util.sp(s).get_kappa()
+        a = util.sp(s).get_kappa_X(["E", "D"], ["K", "R"])
+        b = util.sp(s).get_kappa_X(["K", "R"], ["E", "D"])
+        eq_kappa(ctx, case, a, b, "neighbours-swap", "swapping the groups changed kappa_X on a %d-residue sequence (after neighbouring compositions %r)" % (len(s), case["comps"]), edge)
+        eq_kappa(ctx, case, k, a, "neighbours-kappa=kappaX", "get_kappa() vs get_kappa_X(ED,KR) on a %d-residue sequence" % len(s), edge)
+        if not any(((k == -1) == (r == -1)) and (k == -1 or ref.close(k, r)) for r in refs) and not edge and not (k > 1):
+            ctx.fail("neighbours-reference", "get_kappa()=%r, reference %r for composition %r" % (k, refs, case["comps"]), case)
+
+
 def check(ctx, case):
+    if "comps" in case:
+        return check_neighbours(ctx, case)
     return {"omega": check_omega, "groups": check_groups, "invalid": check_invalid, "history": check_history}[case["kind"]](ctx, case)
 
 
@@ -152,7 +171,12 @@ def hyp_case(draw, max_len):
     seq = draw(gens.sequences(max_len=max_len))
     kind = draw(st.sampled_from(["omega", "groups", "groups", "groups", "invalid", "history"]))
     if kind == "omega":
-        return {"kind": kind, "seq": seq}
+        case = {"kind": kind, "seq": seq}
+        if draw(st.integers(0, 2)) == 0:
+            style = draw(st.sampled_from(["blocks", "wrapped", "padded", "lower"]))
+            case["raw"] = {"blocks": " ".join(seq[i:i + 10] for i in range(0, len(seq), 10)), "wrapped": "\n".join(seq[i:i + 20] for i in range(0, len(seq), 20)) + "\n",
+                           "padded": " " + seq + "\t ", "lower": seq.lower()}[style]
+        return case
     if kind == "history":
         pool = sorted(draw(st.lists(st.sampled_from(sorted(set(seq)) + list("EDKRP")), min_size=2, max_size=5, unique=True)))
         calls = []
@@ -211,5 +235,8 @@ def parts(tier):
     return [
         Part("enum-small-groups", "enum", check=check, cases=enum_cases, exhaustive=False, shards={"quick": 8, "thorough": 16}),
         Part("hyp-groupings", "hyp", check=check, strategy=lambda t: hyp_case(60 if t == "quick" else 150),
-             examples={"quick": 4800, "thorough": 32000}, shards={"quick": 16, "thorough": 16}),
+             examples={"quick": 3200, "thorough": 32000}, shards={"quick": 16, "thorough": 16}),
+        Part("hyp-long-neighbours", "hyp", check=check, shrink=False,
+             strategy=lambda t: gens.neighbour_compositions().flatmap(lambda comps: st.tuples(*[gens.by_composition(*c) for c in comps]).map(lambda ss: {"comps": comps, "seqs": list(ss)})),
+             examples={"quick": 64, "thorough": 1200}, shards={"quick": 16, "thorough": 16}),
     ]
